@@ -113,6 +113,12 @@ Definition m_update (st : state) (pk : bytes) (d : rowdata) : err * state :=
   | (e, _, _) => (e, st)
   end.
 
+(** the Del row built from a cached row: a copy of it with Ty = Del; when the
+    cached row is a pending update of a saved row ([old] set) the copy carries
+    the saved data, whose index entries are the ones in the store *)
+Definition del_copy (r : crow) : crow :=
+  mkC TDel (c_pk r) (match c_old r with Some d0 => d0 | None => c_data r end) (c_old r).
+
 Definition m_del (st : state) (pk : bytes) : err * state :=
   match find_row st pk with
   | (EOk, Some r, Some i) =>
@@ -120,7 +126,7 @@ Definition m_del (st : state) (pk : bytes) : err * state :=
       let st1 := mkSt (kv st) (set_nth i (set_ty TNone r) (rows st)) (del (c_pk r) (rmap st)) in
       match c_ty r with
       | TAdd => (EOk, st1)
-      | _ => (EOk, add_row_cache st1 (set_ty TDel r))
+      | _ => (EOk, add_row_cache st1 (del_copy r))
       end
   | (EOk, Some r, None) => (EOk, add_row_cache st (set_ty TDel r))
   | (EOk, None, _) => (EOther, st)
